@@ -8,8 +8,10 @@
 // "C <i> <key>" is written to stderr, so a sanitizer abort identifies its case.  stdout:
 //   V <key> | <description> | <witness: subcheck seed case 1 1 params>   one line per violation (max 3 per key)
 //   K <class> <count>     evaluations per class          R <name> <max error/tolerance>
+//   F <key> <count>       non-finite results without exception on singular / ill-conditioned operands (not judged)
 //   S <text>              sample cases                   DONE <cases>
 // The oracle is long-double arithmetic with naive loops written from the definitions (no matvec code).
+// Ill-conditioned (kappa 1e8..1e14) and singular operands are only watched for sanitizer reports / crashes.
 // Tolerances (eps = DBL_EPSILON): exact for small-integer operands; 100*n*eps*kappa*scale for identities
 // on well-conditioned operands (kappa <= 1e4 by construction); products (k+2)*2*eps*sum|a||b|.
 #include <cstdio>
@@ -79,6 +81,10 @@ static void viol(const std::string& key, const std::string& what)
 {
   if (++Vn[key] <= 3) { printf("V %s | %s | %s\n", key.c_str(), what.c_str(), g_wit.c_str()); fflush(stdout); }
 }
+// non-finite results on ill-conditioned / singular operands: the property says nothing about them, so they
+// are counted in the evidence ("F" lines) and not reported
+static std::map<std::string, long> Fc;
+static void nonfin(const std::string& key, const std::string&) { Fc[key]++; }
 static void kc(const std::string& cls, long n = 1) { Kc[cls] += n; }
 static std::map<std::string, long> Kx;    // classes observed without being an evaluation of their own
 static void kcls(const std::string& cls, long n = 1) { Kx[cls] += n; }
@@ -96,6 +102,8 @@ static void flush_counters()
   Kc.clear();
   for (std::map<std::string, long>::iterator i = Kx.begin(); i != Kx.end(); ++i) printf("k %s %ld\n", i->first.c_str(), i->second);
   Kx.clear();
+  for (std::map<std::string, long>::iterator i = Fc.begin(); i != Fc.end(); ++i) printf("F %s %ld\n", i->first.c_str(), i->second);
+  Fc.clear();
   for (std::map<std::string, double>::iterator i = Rm.begin(); i != Rm.end(); ++i) {
     std::map<std::string, double>::iterator p = Rprinted.find(i->first);
     if (p == Rprinted.end() || i->second > p->second) { printf("R %s %.6g\n", i->first.c_str(), i->second); Rprinted[i->first] = i->second; }
@@ -335,7 +343,7 @@ template <class OBT, class BT> static void band_families(const char* T, int D)
       kcls("exhaustive/" + t + "/cholDec/" + (n == 0 ? "empty" : pd ? "posdef" : "not-posdef"));
       try { A.g.cholDec(); } catch (const Exc&) { if (pd) viol(key + ":posdef-rejected", fmt("n=%d band=%d positive definite small-integer matrix rejected", n, b)); return; }
       if (n == 0) { viol(key + ":empty:no-exception", "cholDec of a 0x0 matrix did not throw (the library states BadRank)"); return; }
-      if (!pd) { if (!mfinite(A.g)) viol(key + ":not-posdef:nonfinite", fmt("n=%d band=%d: no exception and a non-finite factor", n, b)); return; }
+      if (!pd) { if (!mfinite(A.g)) nonfin(key + ":not-posdef:nonfinite", fmt("n=%d band=%d: no exception and a non-finite factor", n, b)); return; }
       RV e = reig(A.r); LD kappa = e[n - 1] / e[0], tol = 100 * n * EPS * kappa * std::max<LD>(1, rmaxabs(A.r));
       RM rec = recon_LDL(A.g); LD d = rmaxdiff(rec, A.r); ratio("exhaustive_chol_recon", d, tol);
       if (!(d <= tol)) viol(key + ":LDL'", fmt("n=%d band=%d: L*D*L' differs from A by %.3Lg (tolerance %.3Lg)", n, b, d, tol));
@@ -443,7 +451,7 @@ static void build_exhaustive(int D)
       kcls(std::string("exhaustive/Mat/invert/") + (n == 0 ? "empty" : reg ? "regular" : "singular"));
       try { GM I = GNU_gama::inv(A.g);
         if (reg) { LD kappa = std::max<LD>(1, rmaxabs(A.r) * rmaxabs(Xr) * n), tol = 100 * n * EPS * kappa * std::max<LD>(1, rmaxabs(Xr)); cmpM(X + "inv(Mat)", I, Xr, tol, "exhaustive_inv"); }
-        else if (!mfinite(I)) viol(X + "inv(Mat):singular:nonfinite", fmt("n=%d singular small-integer matrix: no exception and a non-finite inverse", n));
+        else if (!mfinite(I)) nonfin(X + "inv(Mat):singular:nonfinite", fmt("n=%d singular small-integer matrix: no exception and a non-finite inverse", n));
       } catch (const Exc& e) { if (reg) viol(X + "inv(Mat):regular-rejected", fmt("n=%d regular small-integer matrix (|det|>=1) rejected: %s", n, e.what())); } });
     int k = symK(n);
     addX("SymMat.access", "SymMat", {n}, k, [=](const int* v) { OS S(n, v); const GS& s = S.g; if (s.dim() != n || s.rows() != n || s.cols() != n) viol(X + "SymMat.access:dims", "dim/rows/cols wrong");
@@ -472,7 +480,7 @@ static void build_exhaustive(int D)
     addX("SymMat.cholDec+solve", "SymMat", {n}, k + n, [=](const int* v) { OS A(n, v); OV x(n, v); bool pd = n > 0 && rposdef(A.r);
       kcls(std::string("exhaustive/SymMat/cholDec/") + (n == 0 ? "empty" : pd ? "posdef" : "not-posdef"));
       try { A.g.cholDec(); } catch (const Exc&) { if (pd) viol(X + "SymMat.cholDec:posdef-rejected", "positive definite small-integer matrix rejected"); return; }
-      if (!pd) { if (!mfinite(A.g)) viol(X + "SymMat.cholDec:not-posdef:nonfinite", "no exception and a non-finite factor"); return; }
+      if (!pd) { if (!mfinite(A.g)) nonfin(X + "SymMat.cholDec:not-posdef:nonfinite", "no exception and a non-finite factor"); return; }
       if (A.g.nullity() != 0) viol(X + "SymMat.cholDec:nullity", fmt("positive definite matrix reported nullity %d", A.g.nullity()));
       RV e = reig(A.r); LD kappa = e[n - 1] / e[0], tol = 100 * n * EPS * kappa * std::max<LD>(1, rmaxabs(A.r));
       LD d = rmaxdiff(recon_LL(A.g), A.r); ratio("exhaustive_chol_recon", d, tol); if (!(d <= tol)) viol(X + "SymMat.cholDec:LL'", fmt("n=%d L*L' differs from A by %.3Lg (tol %.3Lg)", n, d, tol));
@@ -482,7 +490,7 @@ static void build_exhaustive(int D)
       kcls(std::string("exhaustive/SymMat/invert/") + (n == 0 ? "empty" : pd ? "posdef" : "not-posdef"));
       try { GS I = GNU_gama::inv(A.g);
         if (pd) { RM Xr; rinv(A.r, Xr); RV e = reig(A.r); cmpM(X + "inv(SymMat)", I, Xr, 100 * n * EPS * (e[n - 1] / e[0]) * std::max<LD>(1, rmaxabs(Xr)), "exhaustive_inv"); }
-        else if (n > 0 && !mfinite(I)) viol(X + "inv(SymMat):not-posdef:nonfinite", fmt("n=%d: matrix not positive definite, no exception and a non-finite result", n));
+        else if (n > 0 && !mfinite(I)) nonfin(X + "inv(SymMat):not-posdef:nonfinite", fmt("n=%d: matrix not positive definite, no exception and a non-finite result", n));
       } catch (const Exc&) { if (pd) viol(X + "inv(SymMat):posdef-rejected", "positive definite small-integer matrix rejected"); } });
   }
   band_families<OB, GB>("BandMat", D);
@@ -545,7 +553,7 @@ static void rnd_inv(Rng& g, int mode)
     if (!(d2 <= tol)) viol(K + ":A*inv(A)", fmt("n=%d kappa=%.3Lg: max|A*inv(A)-I| = %.3Lg > %.3Lg", n, kappa, d2, tol));
     GM H(n, n); fromRM(H, A); H.invert(); cmpM(K + ":invert()", H, Ir);
   } else {
-    try { GM I = GNU_gama::inv(G); kcls("random/Mat/inv/" + illname(mode) + "/finite-result"); if (!mfinite(I)) viol(K + ":" + illname(mode) + ":nonfinite", fmt("n=%d: no exception and a non-finite inverse", n)); }
+    try { GM I = GNU_gama::inv(G); kcls("random/Mat/inv/" + illname(mode) + "/finite-result"); if (!mfinite(I)) nonfin(K + ":" + illname(mode) + ":nonfinite", fmt("n=%d: no exception and a non-finite inverse", n)); }
     catch (const Exc&) { kcls("random/Mat/inv/" + illname(mode) + "/exception"); }
   }
 }
@@ -566,9 +574,9 @@ static void rnd_sym(Rng& g, int mode)
     if (!(d1 <= tol)) viol(K + ".invert", fmt("n=%d kappa=%.3Lg: max|inv(A)*A-I| = %.3Lg > %.3Lg", n, kappa, d1, tol));
   } else {
     try { S.cholDec(); if (S.nullity() > 0) kcls("random/SymMat/cholDec/" + illname(mode) + "/nullity"); else { kcls("random/SymMat/cholDec/" + illname(mode) + "/finite-result");
-        if (!mfinite(S)) viol(K + ".cholDec:" + illname(mode) + ":nonfinite", "no exception, nullity 0 and a non-finite factor"); else { S.solve(y); if (!vfinite(y)) viol(K + ".solve:" + illname(mode) + ":nonfinite", "nullity 0 but non-finite solution"); } } }
+        if (!mfinite(S)) nonfin(K + ".cholDec:" + illname(mode) + ":nonfinite", "no exception, nullity 0 and a non-finite factor"); else { S.solve(y); if (!vfinite(y)) nonfin(K + ".solve:" + illname(mode) + ":nonfinite", "nullity 0 but non-finite solution"); } } }
     catch (const Exc&) { kcls("random/SymMat/cholDec/" + illname(mode) + "/exception"); }
-    try { GS T(n); fromRM(T, A); T.invert(); if (!mfinite(T)) viol(K + ".invert:" + illname(mode) + ":nonfinite", fmt("n=%d: no exception and a non-finite inverse", n)); else kcls("random/SymMat/invert/" + illname(mode) + "/finite-result"); }
+    try { GS T(n); fromRM(T, A); T.invert(); if (!mfinite(T)) nonfin(K + ".invert:" + illname(mode) + ":nonfinite", fmt("n=%d: no exception and a non-finite inverse", n)); else kcls("random/SymMat/invert/" + illname(mode) + "/finite-result"); }
     catch (const Exc&) { kcls("random/SymMat/invert/" + illname(mode) + "/exception"); }
   }
 }
@@ -601,8 +609,8 @@ template <class BT> static void rnd_band(Rng& g, int mode, const char* T)
     if (!(d <= tol * nrm)) viol(K + ".cholDec:LDL'", fmt("n=%d band=%d kappa=%.3Lg: max|L*D*L'-A| = %.3Lg > %.3Lg", n, b, kappa, d, tol * nrm));
     B.solve(y); LD xs = 0; for (int i = 0; i < n; i++) xs = std::max(xs, fabsl(x0[i])); cmpV(K + ".solve", y, x0, tol * xs, "random_chol_solve");
   } else {
-    try { B.cholDec(); kcls("random/" + t + "/cholDec/" + illname(mode) + "/finite-result"); if (!mfinite(B)) viol(K + ".cholDec:" + illname(mode) + ":nonfinite", "no exception and a non-finite factor");
-      else { B.solve(y); if (!vfinite(y)) viol(K + ".solve:" + illname(mode) + ":nonfinite", "factorisation accepted but non-finite solution"); } }
+    try { B.cholDec(); kcls("random/" + t + "/cholDec/" + illname(mode) + "/finite-result"); if (!mfinite(B)) nonfin(K + ".cholDec:" + illname(mode) + ":nonfinite", "no exception and a non-finite factor");
+      else { B.solve(y); if (!vfinite(y)) nonfin(K + ".solve:" + illname(mode) + ":nonfinite", "factorisation accepted but non-finite solution"); } }
     catch (const Exc&) { kcls("random/" + t + "/cholDec/" + illname(mode) + "/exception"); }
   }
 }
@@ -631,7 +639,7 @@ static void rnd_svd(Rng& g, int mode, bool use_pinv)
   GM G(m, n); fromRM(G, A); std::string kb = mode == 0 ? kbucket(kappa) + (zeros ? "/rank-deficient" : "/full-rank") : illname(mode);
   if (use_pinv) {
     const std::string K = "random:pinv"; rcase("pinv", "Mat", kb, shape + "/" + nbucket(N));
-    if (mode != 0) { try { GM X = GNU_gama::pinv(G); kcls("random/Mat/pinv/" + illname(mode) + "/finite-result"); if (!mfinite(X)) viol(K + ":" + illname(mode) + ":nonfinite", fmt("%dx%d: no exception and a non-finite pseudo-inverse", m, n)); }
+    if (mode != 0) { try { GM X = GNU_gama::pinv(G); kcls("random/Mat/pinv/" + illname(mode) + "/finite-result"); if (!mfinite(X)) nonfin(K + ":" + illname(mode) + ":nonfinite", fmt("%dx%d: no exception and a non-finite pseudo-inverse", m, n)); }
       catch (const Exc&) { kcls("random/Mat/pinv/" + illname(mode) + "/exception"); } return; }
     GM X = GNU_gama::pinv(G); if (X.rows() != n || X.cols() != m) { viol(K + ":dims", fmt("pinv of %dx%d is %dx%d", m, n, X.rows(), X.cols())); return; }
     RM Xr = toRM(X); LD tol = 100 * N * EPS * kappa; RM AX = rmul(A, Xr), XA = rmul(Xr, A);
@@ -647,7 +655,7 @@ static void rnd_svd(Rng& g, int mode, bool use_pinv)
   }
   const std::string K = "random:SVD"; rcase("svd", "Mat", kb, shape + "/" + nbucket(N));
   GNU_gama::SVD<double, int, Exc> svd(G);
-  if (mode != 0) { try { svd.decompose(); kcls("random/Mat/svd/" + illname(mode) + "/finite-result"); if (!mfinite(svd.SVD_U()) || !mfinite(svd.SVD_V()) || !vfinite(svd.SVD_W())) viol(K + ":" + illname(mode) + ":nonfinite", fmt("%dx%d: no exception and non-finite factors", m, n)); }
+  if (mode != 0) { try { svd.decompose(); kcls("random/Mat/svd/" + illname(mode) + "/finite-result"); if (!mfinite(svd.SVD_U()) || !mfinite(svd.SVD_V()) || !vfinite(svd.SVD_W())) nonfin(K + ":" + illname(mode) + ":nonfinite", fmt("%dx%d: no exception and non-finite factors", m, n)); }
     catch (const Exc&) { kcls("random/Mat/svd/" + illname(mode) + "/exception"); } return; }
   svd.decompose(); RM Ug = toRM(svd.SVD_U()), Vg = toRM(svd.SVD_V()); RV W = toRV(svd.SVD_W()); std::string w = fmt("%dx%d rank %d kappa=%.3Lg", m, n, p - zeros, kappa);
   if (Ug.r != m || Ug.c != n || Vg.r != n || Vg.c != n || int(W.size()) != n) { viol(K + ":dims", w + ": dimensions of U, W, V wrong"); return; }
@@ -678,7 +686,7 @@ static void rnd_gso_blocks(Rng& g, int mode)
   RM A(m + p, n + q); for (int i = 0; i < m + p; i++) for (int j = 0; j < n + q; j++) A(i, j) = (i < m && j < n) ? A1(i, j) : LD(double(g.gauss()));
   GM G(m + p, n + q); fromRM(G, A); rcase("gso1-blocks", "GSO", mode == 0 ? kbucket(kappa) : illname(mode), nbucket(m + p));
   GNU_gama::GSO<double, int, Exc> gso(G, m, n);
-  if (mode != 0) { try { gso.gso1(); int d = gso.defect(); kcls(fmt("random/GSO/gso1/%s/%s", illname(mode).c_str(), d ? "defect>0" : "defect=0")); if (!mfinite(G)) viol(K + ":" + illname(mode) + ":nonfinite", "no exception and non-finite result"); }
+  if (mode != 0) { try { gso.gso1(); int d = gso.defect(); kcls(fmt("random/GSO/gso1/%s/%s", illname(mode).c_str(), d ? "defect>0" : "defect=0")); if (!mfinite(G)) nonfin(K + ":" + illname(mode) + ":nonfinite", "no exception and non-finite result"); }
     catch (const Exc&) { kcls("random/GSO/gso1/" + illname(mode) + "/exception"); } return; }
   gso.gso1(); if (gso.defect() != 0) { viol(K + ":defect", fmt("%dx%d block of full rank, kappa=%.3Lg: defect() = %d", m, n, kappa, gso.defect())); return; }
   RM W = toRM(G), W1(m, n), W2(m, q), W3(p, n), W4(p, q), A2(m, q), A3(p, n), A4(p, q);
@@ -704,7 +712,7 @@ static void rnd_gso_ls(Rng& g, int mode)
   GM G(m + n, n + 1); G.set_zero(); for (int i = 0; i < m; i++) { G(i + 1, n + 1) = -double(b[i]); for (int j = 0; j < n; j++) G(i + 1, j + 1) = double(A(i, j)); } for (int j = 1; j <= n; j++) G(m + j, j) = 1;
   rcase("least-squares", "GSO", mode == 0 ? kbucket(kappa) : mode == 2 ? "rank-deficient" : "ill", nbucket(m));
   GNU_gama::GSO<double, int, Exc> gso(G, m, n); gso.min_x();
-  if (mode == 1) { try { gso.gso1(); gso.gso2(); if (!mfinite(G)) viol(K + ":ill:nonfinite", "no exception and non-finite result"); } catch (const Exc&) { kcls("random/GSO/ls/ill/exception"); } return; }
+  if (mode == 1) { try { gso.gso1(); gso.gso2(); if (!mfinite(G)) nonfin(K + ":ill:nonfinite", "no exception and non-finite result"); } catch (const Exc&) { kcls("random/GSO/ls/ill/exception"); } return; }
   gso.gso1(); gso.gso2();
   if (gso.defect() != zeros) { viol(K + ":defect", fmt("%dx%d rank %d kappa=%.3Lg: defect() = %d", m, n, n - zeros, kappa, gso.defect())); return; }
   RV x(n), r(m); for (int j = 0; j < n; j++) x[j] = obs(G(m + j + 1, n + 1)); for (int i = 0; i < m; i++) r[i] = obs(G(i + 1, n + 1));
